@@ -97,7 +97,7 @@ func be48(v *big.Int) []byte { out := make([]byte, 48); v.FillBytes(out); return
 func TestVerifyRequest(t *testing.T) {
 	s := rt.S("verify-request").SetRule("honest (request, blind, client key) triples from real clients, then one mutation: bit flip in each request field, signature spliced from another client / another blind / another request, (r, N-s), r or s in {0, N, N+1, 2^384-1}, wrong blind (other scalar, leading-zero re-encoding, empty), wrong client key (other client, negated point), malformed keys (not on curve, wrong length, uncompressed prefix); requests always carry a 96-byte signature (what the decoder produces). oracle: VerifyRequest==nil implies the independent predicate (crypto/ecdsa.Verify over the exact contents AND request key == harness-computed blinding of the client key); a call that errors or whose predicate is false makes no Put and leaves every stored state unchanged; unmutated triples must be accepted (health). non-trivial = mutated triple whose predicate is false; distinct by (request, blind, client key)")
 	n := elliptic.P384().Params().N
-	rt.Check(t, 700, 60000, func(t *rapid.T) {
+	rt.Check(t, 700, 120000, func(t *rapid.T) {
 		defer rt.Entropy(gen.Seed().Draw(t, "entropy"))()
 		a, err := gen.NewSession(t, 3, gen.SessionOpts{RKeyIdx: -1})
 		if err != nil {
